@@ -48,7 +48,7 @@ ASSUMPTIONS = [
     "real_divide at nat/int are treated as unspecified (UNKNOWN, never a violation)",
     "a goal outside the macro's intended type that is accepted although TRUE is only counted "
     "(accepted_out_of_domain_true): the last sentence of the property is read as protecting against false assertions",
-    "exceptions and Timeouts (2 CPU-seconds per goal) of the code under test count as 'rejected' / inconclusive",
+    "exceptions and Timeouts (4 CPU-seconds per goal, 20 for real_eq_comparison) of the code under test count as 'rejected' / inconclusive",
     "the level-0 solver bridges (z3, sympy, simplex, verit) belong to C06/C16/C18 and are not run here",
 ]
 SHRINK_SECONDS = 15
@@ -391,11 +391,13 @@ def cpu_time_limit(seconds):
         _disarm()
 
 
-def run_macro(macro, goal, seconds=2):
+def run_macro(macro, goal, seconds=None):
     """One-item Proof invoking `macro` on `goal`, checked by theory.check_proof at the default level.
     Returns ('thm', Thm) | ('rejected', text) | ('timeout', None)."""
     theory = _K['theory']
     theory.thy = _thy['thy']
+    if seconds is None:     # CPU seconds; real_eq_comparison runs the auto normaliser (0.1 - 1 s per goal)
+        seconds = 20 if macro == 'real_eq_comparison' else 4
     prf = _K['Proof']()
     prf.add_item(0, macro, args=goal, prevs=[])
     try:
